@@ -63,6 +63,29 @@ theorem alookup_mem {β} (l : List (String × β)) (c : String) (b : β)
 
 /-- with a coherent memo `get_handler` answers what the table says, and leaves a
     coherent memo over the same table -/
+theorem nearest_ne_off (t : Table) (ct : ClassTable) (cls : String) :
+    t.nearest ct cls ≠ some .off := by
+  unfold Table.nearest
+  split
+  · split <;> simp_all
+  · simp
+
+theorem coherent_mem {r : Reg} {ct : ClassTable} (hc : r.coherent ct = true) {c : String} {hn : Handler}
+    (hm : (c, hn) ∈ r.cache) :
+    (hn = .off → r.tbl.nearest ct c = none) ∧ (hn ≠ .off → r.tbl.nearest ct c = some hn) := by
+  simp only [Reg.coherent, List.all_eq_true] at hc
+  have := hc _ hm
+  by_cases ho : hn = .off
+  · subst ho; simp at this; exact ⟨fun _ => this, fun h => absurd rfl h⟩
+  · simp [ho] at this; exact ⟨fun h => absurd h ho, fun _ => this⟩
+
+theorem coherent_cons {r : Reg} {ct : ClassTable} {c : String} {hn : Handler}
+    (hne : hn ≠ .off) (hn' : r.tbl.nearest ct c = some hn) (hc : r.coherent ct = true) :
+    ({ r with cache := (c, hn) :: r.cache } : Reg).coherent ct = true := by
+  simp only [Reg.coherent, List.all_cons, Bool.and_eq_true] at hc ⊢
+  refine ⟨?_, hc⟩
+  simp [hne, hn']
+
 theorem getHandler_coherent (r : Reg) (ct : ClassTable) (cls : String)
     (hc : r.coherent ct = true) :
     (r.getHandler ct cls).1 = r.tbl.nearest ct cls ∧
@@ -71,19 +94,21 @@ theorem getHandler_coherent (r : Reg) (ct : ClassTable) (cls : String)
   unfold Reg.getHandler
   cases hl : alookup r.cache cls with
   | some hn =>
-    have hm := alookup_mem _ _ _ hl
-    simp only [Reg.coherent, List.all_eq_true] at hc
-    have := hc _ hm
-    simp only [beq_iff_eq] at this
-    refine ⟨by simp [this], rfl, ?_⟩
-    simp only [Reg.coherent, List.all_eq_true]; exact hc
+    obtain ⟨h1, h2⟩ := coherent_mem hc (alookup_mem _ _ _ hl)
+    cases hn with
+    | off => exact ⟨by simp [h1 rfl], rfl, hc⟩
+    | getattr => exact ⟨by simp [h2 (by simp)], rfl, hc⟩
+    | getitem => exact ⟨by simp [h2 (by simp)], rfl, hc⟩
+    | seqItem => exact ⟨by simp [h2 (by simp)], rfl, hc⟩
+    | table a => exact ⟨by simp [h2 (by simp)], rfl, hc⟩
+    | raises c => exact ⟨by simp [h2 (by simp)], rfl, hc⟩
+    | named n => exact ⟨by simp [h2 (by simp)], rfl, hc⟩
   | none =>
     cases hn : r.tbl.nearest ct cls with
     | none => exact ⟨rfl, rfl, hc⟩
     | some hn' =>
-      refine ⟨rfl, rfl, ?_⟩
-      simp only [Reg.coherent, List.all_cons, Bool.and_eq_true, beq_iff_eq] at hc ⊢
-      exact ⟨hn, hc⟩
+      have hne : hn' ≠ .off := fun h => nearest_ne_off r.tbl ct cls (h ▸ hn)
+      exact ⟨rfl, rfl, coherent_cons hne hn hc⟩
 
 theorem register_coherent (r : Reg) (ct : ClassTable) (c : String) (hn : Option Handler) (ex : Bool) :
     (r.register c hn ex).coherent ct = true := by
